@@ -36,3 +36,14 @@ pub fn vf_pl_indices(p: &Polyline) -> (r: &[[u32; 2]]) ensures r@ == pl_idx(p) {
 pub fn vf_range_vec(len: usize) -> (r: Vec<usize>)
     ensures r.len() == len, forall|i: int| 0 <= i < len ==> r[i] == i,
 { (0..len).collect::<Vec<_>>() }
+
+// ---- robustness: bounding-box accessors, so that a plane / bounding-box pre-test added to Mesh::section stays inside the
+// verifier's subset (and is then judged against the contract instead of being "undecided").  ASSUMED: parry keeps an
+// axis-aligned box per mesh (`tm_aabb`, a function of the mesh); NOTHING is assumed about how the box relates to the
+// mesh's vertices or to the plane section - an early exit based on it therefore cannot be proved right.
+#[derive(Clone, Copy)] pub struct Aabb3 { pub mins: Point3, pub maxs: Point3 }
+pub uninterp spec fn tm_aabb(m: &TriMesh) -> Aabb3;
+impl TriMesh {
+    #[verifier::external_body]
+    pub fn local_aabb(&self) -> (r: &Aabb3) ensures *r == tm_aabb(self) { unimplemented!() }
+}
